@@ -26,6 +26,8 @@ var c16Files = map[string]string{
 	"/e/x.txt":      "TOKEN-e-x",
 	// the same name, size and modification time as /d/g.txt, other content
 	"/e/g.txt": "TOKEN-e-g",
+	// a regular file without content (it is the index of the root directory where Index is g.txt)
+	"/g.txt": "",
 }
 var c16Dirs = []string{"/", "/d", "/e", "/h", "/h/index.html", "/st"}
 
